@@ -150,6 +150,18 @@ def spellings(meta):
                 out.append((parent + "/public/../" + quote(segs[-1], safe="") + ("/" if is_dir else ""), "dotdot-from-public", loc))
                 out.append((parent + "/./" + quote(segs[-1], safe="") + ("/" if is_dir else ""), "dot-inside", loc))
                 out.append((parent + "/%2e%2e/" + quote(segs[-2], safe="") + "/" + quote(segs[-1], safe="") + ("/" if is_dir else ""), "encoded-dotdot", loc))
+        if segs:
+            # escapes of escapes: decoded ONCE (RFC 3986) these name a different, non-existent resource (a name with a
+            # literal '%' in it); they address nothing, and whatever they are answered with, it is not the content of
+            # the resource a second decoding would reach
+            first_raw = segs[0]
+            dbl = "%25" + f"{ord(first_raw[0]):02X}" + quote(first_raw[1:], safe="") if first_raw[0].isascii() else None
+            rest = enc[len(quote(first_raw, safe="")) + 1:]
+            if dbl:
+                out.append(("/" + dbl + rest, "double-escaped-char", None))
+            out.append(("/public/%252e%252e" + enc, "double-escaped-dotdot", None))
+            out.append(("/" + "%252F".join(quote(x, safe="") for x in segs) + ("/" if is_dir else ""), "double-escaped-slash", None) if len(segs) >= 2 else ("/%252e" + enc, "double-escaped-dot", None))
+            out.append(("/" + quote(quote(first_raw, safe=""), safe="") + rest, "double-escaped-segment", None) if quote(first_raw, safe="") != first_raw else ("/zz%252F.." + enc, "double-escaped-detour", None))
         if is_dir and segs:
             out.append((enc.rstrip("/"), "no-trailing-slash", loc))
         if is_dir:
